@@ -11,8 +11,8 @@ use serde_json::json;
 pub fn explore(opts: &Opts) -> Explored {
     let mut space = matmul_space(opts.tier);
     // longer inner dimensions and wider outputs than the exhaustive part, for every transpose combination
-    for inner in [4usize, 5, 7, 8, 9, 12, 16, 17, 33] {
-        for (rows, cols) in [(1usize, 1usize), (2, 3), (3, 1), (5, 4)] {
+    for inner in [4usize, 5, 7, 8, 9, 12, 16, 17, 33, 65, 129, 200, 257] {
+        for (rows, cols) in [(1usize, 1usize), (2, 3), (3, 1), (5, 4), (2, 65), (66, 2)] {
             for ta in [false, true] {
                 for tb in [false, true] {
                     let am = if ta { vec![inner, rows] } else { vec![rows, inner] };
